@@ -116,12 +116,12 @@ def main(argv=None):
         json.dump([{"oracle": v.get("oracle"), "signature": v.get("signature"), "message": v.get("message"), "spec": v.get("spec"), "choices": v.get("choices")}
                    for v in new_viol], open(f"/tmp/verif_viol_{pid}.json", "w"), indent=1, default=repr)
     for v in new_viol[:10]:
-        path = findings.write_replay(pid, v)
+        path = findings.write_replay(pid, v) if not os.environ.get("VERIF_NO_EVIDENCE") else "(not written)"
         print(f"VIOLATION property={pid} replay={path}")
         print("   ", v.get("oracle"), "::", str(v.get("message"))[:600])
         print("    signature:", json.dumps(v.get("signature", {}), sort_keys=True)[:600])
         code = 1
-    if args.only is None:
+    if args.only is None and not os.environ.get("VERIF_NO_EVIDENCE"):
         cov = rep["coverage"]
         cov["known_findings_matched"] = sum(seen_known.values())
         path = evidence.write(pid, args.tier, seed, rep["level"], cov, wall, len(new_viol),
